@@ -962,6 +962,12 @@ def extract_fields(obj: model.CanContainImportsDocumentable) -> None:
                            'docstring', field.lineno)
                 continue
             attrobj: Optional[model.Documentable] = obj.contents.get(arg)
+            if attrobj is not None and not isinstance(attrobj, model.Attribute):
+                # The name is the one of a submodule, a class or a function: 
+                # it does not become a variable because a field says so.
+                obj.report(f'@{tag} {arg}: "{arg}" is not a variable, the field is ignored',
+                           'docstring', field.lineno, thresh=1)
+                continue
             if attrobj is None:
                 attrobj = obj.system.Attribute(obj.system, arg, obj)
                 attrobj.kind = None
